@@ -63,6 +63,8 @@ class World(object):
         self.drop_filter = None   # callable(ev) -> True to drop at enqueue
         self.cur_event = None
         self.sub_wf_started = []
+        self.forced_fail = 0
+        self.server_errors = []   # exceptions raised by EngineServer methods
 
     def add(self, ev):
         self.seq += 1
@@ -329,6 +331,18 @@ def boot(scheduler_type='default', auth_enable=False):
         _require(db_api, fn)
         _wrap_cas(fn)
 
+    # ---- forced failures (pure recording): a run failed by force while
+    # other work is in flight is order dependent in the language itself
+    from mistral.engine import workflow_handler as _wfh
+    _require(_wfh, 'force_fail_workflow')
+    _orig_ffw = _wfh.force_fail_workflow
+
+    def _force_fail_workflow(wf_ex, msg=None):
+        W.forced_fail += 1
+        return _orig_ffw(wf_ex, msg)
+
+    _wfh.force_fail_workflow = _force_fail_workflow
+
     action_service.get_system_action_provider()
     _memo_check_schema()
     _BOOTED = True
@@ -489,6 +503,17 @@ def deliver(ctx, method, kwargs):
         auth_context.set_ctx(ctx)
         try:
             return getattr(endpoint, method)(ctx, **kwargs)
+        except Exception as e:
+            # what the RPC *server* method raised, before the client-side
+            # decorator (rpc.base.wrap_messaging_exception) turns anything
+            # into a MistralException: pure recording
+            W.server_errors.append({
+                'step': W.step, 'kind': 'rpc', 'label': method,
+                'type': type(e).__name__,
+                'mro': [c.__name__ for c in type(e).__mro__],
+                'msg': str(e)[:400],
+                'frame': _innermost_mistral_frame(e.__traceback__)})
+            raise
         finally:
             auth_context.set_ctx(old)
 
